@@ -16,16 +16,17 @@ package sharding
 
 //@ extern (encoding/binary.bigEndian).Uint64
 //@   modifies nothing
+//@   ensures result == be64(elems(b), first(b))
 //@ pure sbaWF(ba) = ba.shardSelector != nil && selCount(ba.shardSelector) == len(ba.backends) && len(ba.backends) >= 1
 //@     && (forall k :: 0 <= k && k < len(ba.backends) ==> ba.backends[k].Backend != nil)
 
-// hashOf(digest): the 64 bits of the object's hash the selector is fed.
-//@ ufunc hashOf(str) u64
+// hashOf(digest): the 64 bits of the object's hash the selector is fed (declared
+// with Digest.GetHashBytes). The shard is a function of selector and hash only:
+// nothing remembered from earlier lookups takes part.
 //@ func (*shardingBlobAccess).getBackendIndexByDigest
-//@   trusted
 //@   requires sbaWF(ba)
 //@   modifies nothing
-//@   ensures result == selShard(ba.shardSelector, hashOf(blobDigest.value)) && 0 <= result && result < len(ba.backends)
+//@   ensures [shard-is-a-function-of-selector-and-hash] result == selShard(ba.shardSelector, hashOf(blobDigest.value)) && 0 <= result && result < len(ba.backends)
 
 // Reads and writes of an object go to the one backend its hash selects.
 //@ func (*shardingBlobAccess).Get
@@ -45,9 +46,22 @@ package sharding
 //@ func (*shardingBlobAccess).FindMissing
 //@   opt contents SetBuilder
 //@   requires sbaWF(ba)
+//@   callrequires (SetBuilder).Add [each-digest-goes-to-the-partition-of-its-shard] 0 <= rangeindex1 && rangeindex1 < len(digests.digests)
+//@         && arg1.value == digests.digests[rangeindex1].value
+//@         && arg0.digests == digestsPerBackend[selShard(ba.shardSelector, hashOf(arg1.value))].digests
 //@   loop 0 invariant -1 <= rangeindex && rangeindex < len(ba.backends) && len(digestsPerBackend) == rangeindex + 1
 //@         && cap(digestsPerBackend) >= len(ba.backends) && unchanged(len(ba.backends)) && unchanged(ba.shardSelector) && sbaWF(ba)
 //@   loop 1 invariant -1 <= rangeindex && len(digestsPerBackend) == len(ba.backends) && unchanged(len(ba.backends)) && unchanged(ba.shardSelector) && sbaWF(ba)
 //@   loop 2 invariant -1 <= rangeindex && rangeindex < len(digestsPerBackend) && len(digestsPerBackend) == len(ba.backends)
 //@         && unchanged(len(ba.backends))
 //@   loop 2 invariant [answers-are-never-moved] len(missingPerBackend) <= rangeindex + 1 && cap(missingPerBackend) >= len(ba.backends)
+
+// The goroutine of one shard: asks exactly that shard's backend about exactly
+// the partition it was given, stores the answer in its own slot, and reports
+// the backend's failure.
+//@ func (*shardingBlobAccess).FindMissing$1
+//@   requires sbaWF(ba) && 0 <= index && index < len(ba.backends) && missingOut != nil
+//@   ensures [asks-its-own-shard-about-its-own-partition] baCalls(ba.backends[index].Backend) == old(baCalls(ba.backends[index].Backend)) + 1
+//@         && fmArg(ba.backends[index].Backend) == sbSet(digests.digests, sbAdds(digests.digests))
+//@   ensures [failure-reported] (result == nil) <==> (fmErr(ba.backends[index].Backend) == nil)
+//@   ensures [answer-kept-in-its-own-slot] result == nil ==> base(missingOut.digests) == fmRes(ba.backends[index].Backend)
